@@ -462,6 +462,10 @@ def variants():
     mc = "tempest/mcmc.py"
     mu = "tempest/steps/mutate.py"
     return [
+        Variant("a-shuffled-pool-batch", "bad", replace_stmt(core, "SamplerCore._log_like", "results = list(self._get_distribute_func()(self.config.log_likelihood, x))", "order = np.random.permutation(len(x))\nshuf = list(self._get_distribute_func()(self.config.log_likelihood, x[order]))\nresults = [None] * len(shuf)\nfor pos, j in enumerate(order):\n    results[j] = shuf[pos]"), ["C13.a"], quick=True),
+        Variant("a-dedup-batch", "bad", replace_stmt(core, "SamplerCore._log_like", "results = list(map(self.config.log_likelihood, x))", "pts, inv = np.unique(x, axis=0, return_inverse=True)\nres0 = list(map(self.config.log_likelihood, pts))\nresults = [res0[i] for i in inv]"), ["C13.a"]),
+        Variant("a-asarray-batch-benign", "benign", replace_stmt(core, "SamplerCore._log_like", "results = list(map(self.config.log_likelihood, x))", "xs = np.asarray(x)\nresults = list(map(self.config.log_likelihood, xs))")),
+        Variant("a-pool-before-vectorize", "bad", chain(replace_expr(core, "SamplerCore._log_like", "self.config.vectorize", "self.config.pool is not None and not self.config.vectorize"), ), ["C13.a"]),
         Variant("a-imap-unordered", "bad", replace_expr(core, "SamplerCore._get_distribute_func", "self.config.pool.map", "self.config.pool.imap_unordered"), ["C13.a"], quick=True),
         Variant("a-pool-imap-unordered", "bad", replace_expr(core, "SamplerCore._get_distribute_func", "pool.map", "pool.imap_unordered"), ["C13.a"]),
         Variant("b-int-fallthrough", "bad", chain(replace_if(core, "SamplerCore._get_distribute_func", "self.config.pool <= 1", "pass"), replace_expr(core, "SamplerCore._get_distribute_func", "isinstance(self.config.pool, int)", "isinstance(self.config.pool, int) and self.config.pool > 1")), ["C13.b"], quick=True),
